@@ -355,3 +355,81 @@ Proof.
     + destruct HC as (y & HC). rewrite drop_tmp_eq. cbn [s_w with_w]. eapply Hdrop; eauto.
     + destruct HC as (y & HC). eapply Hweak; eauto.
 Qed.
+
+(* ------------------------------------------------------------------ postconditions on return (no invariant) *)
+Definition post {A} (P : wpred) (m : M A) (Q : A -> wpred) : Prop := hoare ptrue false P m Q.
+
+Lemma post_of_hs {A} (Iv : wpred) (m : M A) : hs Iv false m (fun _ => True) -> post Iv m (fun _ => Iv).
+Proof.
+  intros H s _ HI. specialize (H s HI I). destruct (m s) as [[a| | | |] s']; try exact I.
+  destruct H as [H _]. split; [exact I|exact H].
+Qed.
+Lemma post_do_op e o (P Q : wpred) : e_pretend e = false ->
+  (forall w w', P w -> op_result o w = Some w' -> Q w') -> post P (do_op e o) (fun _ => Q).
+Proof.
+  intros Hp H s _ HP. unfold do_op. destruct (mutate_np e o (apply_op o) s Hp) as [E|[E|E]]; rewrite E; try exact I.
+  rewrite apply_op_eq. unfold wact. cbn [s_w bump]. destruct (op_result o (s_w s)) as [w'|] eqn:Eo; [|exact I].
+  split; [exact I|]. eapply H; eauto.
+Qed.
+Lemma post_write_atomically (P Q : wpred) (Tv : bytes -> wpred) e p chunks : e_pretend e = false ->
+  (forall w w', P w -> op_result (OOpen (p ++ tmp_suffix)) w = Some w' -> Tv [] w') ->
+  (forall x c w, Tv x w -> Tv (x ++ c) (set_fs w (append_file (w_fs w) (p ++ tmp_suffix) c))) ->
+  (forall w w', Tv (concat chunks) w -> op_result (ORename (p ++ tmp_suffix) p) w = Some w' -> Q w') ->
+  post P (write_file_atomically e p chunks) (fun _ => Q).
+Proof.
+  intros Hp Hopen Happ Hren s _ HP. unfold write_file_atomically, do_op.
+  destruct (mutate_np e (OOpen (p ++ tmp_suffix)) (apply_op (OOpen (p ++ tmp_suffix))) s Hp) as [E|[E|E]]; rewrite E; try exact I.
+  rewrite apply_op_eq. unfold wact. cbn [s_w bump].
+  destruct (op_result (OOpen (p ++ tmp_suffix)) (s_w s)) as [w1|] eqn:Eo; [|exact I].
+  pose proof (Hopen _ _ HP Eo) as HT.
+  pose proof (cursor_writes_rule Tv e (p ++ tmp_suffix) Hp Happ chunks [] (with_w (bump s (OOpen (p ++ tmp_suffix))) w1) HT) as HC.
+  destruct (cursor_writes e (p ++ tmp_suffix) chunks _) as [[u| | | |] s2]; try contradiction.
+  - cbn [app] in HC.
+    destruct (mutate_np e (ORename (p ++ tmp_suffix) p) (apply_op (ORename (p ++ tmp_suffix) p)) s2 Hp) as [E2|[E2|E2]]; rewrite E2.
+    + exact I.
+    + rewrite drop_tmp_eq. exact I.
+    + rewrite apply_op_eq. unfold wact. cbn [s_w bump].
+      destruct (op_result (ORename (p ++ tmp_suffix) p) (s_w s2)) as [w3|] eqn:Er.
+      * split; [exact I|]. eapply Hren; eauto.
+      * rewrite drop_tmp_eq. exact I.
+  - rewrite drop_tmp_eq. exact I.
+  - exact I.
+Qed.
+Lemma post_mapM_ {A} (Pk : list A -> wpred) (f : A -> M unit) (l : list A) :
+  (forall done x rest, l = done ++ x :: rest -> post (Pk done) (f x) (fun _ => Pk (done ++ [x]))) ->
+  post (Pk []) (mapM_ f l) (fun _ => Pk l).
+Proof.
+  assert (G : forall rest done, l = done ++ rest ->
+            (forall done0 x rest0, l = done0 ++ x :: rest0 -> post (Pk done0) (f x) (fun _ => Pk (done0 ++ [x]))) ->
+            post (Pk done) (mapM_ f rest) (fun _ => Pk l)).
+  { induction rest as [|x rest IH]; intros done E H; cbn [mapM_].
+    - rewrite app_nil_r in E. subst done. apply hoare_ret. auto.
+    - eapply hoare_bind; [apply (H done x rest E)|]. intros u. cbv beta.
+      apply IH; [|exact H]. rewrite E, <- app_assoc. reflexivity. }
+  intros H. apply (G l []); [reflexivity|exact H].
+Qed.
+Lemma post_bind {A B} (P : wpred) (m : M A) (f : A -> M B) Q R :
+  post P m Q -> (forall a, post (Q a) (f a) R) -> post P (bind m f) R.
+Proof. apply hoare_bind. Qed.
+Lemma post_conseq {A} (P P' : wpred) (m : M A) (Q Q' : A -> wpred) :
+  post P m Q -> (forall w, P' w -> P w) -> (forall a w, Q a w -> Q' a w) -> post P' m Q'.
+Proof. intros H H1 H2. eapply hoare_conseq; [exact H|intros w _; apply H1|intros a w _; apply H2]. Qed.
+Lemma post_guard_k {B} (P : wpred) (b : bool) (k : M B) R :
+  (b = true -> post P k R) -> post P (bind (guard b) (fun _ => k)) R.
+Proof.
+  intros H. destruct b.
+  - intros s HI HP. exact (H eq_refl s HI HP).
+  - intros s HI HP. cbn. exact I.
+Qed.
+Lemma post_get_fs_k {B} (P : wpred) (k : fsT -> M B) R :
+  (forall f, post (fun w => P w /\ f = w_fs w) (k f) R) -> post P (bind get_fs k) R.
+Proof. intros H s HI HP. exact (H _ s HI (conj HP eq_refl)). Qed.
+Lemma post_fix_world {A} (P : wpred) (m : M A) Q :
+  (forall w0, P w0 -> post (fun w => w = w0) m Q) -> post P m Q.
+Proof. intros H s HI HP. exact (H (s_w s) HP s HI eq_refl). Qed.
+Lemma post_false {A} (P : wpred) (m : M A) Q : (forall w, P w -> False) -> post P m Q.
+Proof. intros H s _ HP. destruct (H _ HP). Qed.
+Lemma post_ret {A} (P : wpred) (a : A) (Q : A -> wpred) : (forall w, P w -> Q a w) -> post P (ret a) Q.
+Proof. intros H. apply hoare_ret. intros w _. apply H. Qed.
+Lemma post_fail {A} (P : wpred) (Q : A -> wpred) : post P (@fail A) Q.
+Proof. apply hoare_fail. Qed.
